@@ -241,7 +241,7 @@ func segmentationScenarios() []scenario {
 
 func TestC23(t *testing.T) {
 	runProperty(t, "C23", c23Configs(), nil, append(c23Scenarios(), segmentationScenarios()...),
-		"breadth-first exploration with state deduplication of ALL harness event sequences up to the configured depth over two real multiplexers on a harness-owned carrier inside a synctest bubble; events: open, accept, write(n) n in {0,1,W+1}, read(k) k in {0,1,W+1}, closeWrite, close (both sides), deliver next chunk A>B / B>A (thorough also: next byte, window 3, two streams); one case = one executed history; judged on every Read/Write result and at every quiescent state: byte k read on a stream = byte k the peer wrote on it (values encode stream, direction, offset), nothing read beyond what Write calls reported, io.EOF only after the peer's CloseWrite/Close and with all reported bytes read, reported bytes with nothing in flight are readable, and with nothing in flight no Write stays blocked whose data fits the window the peer has freed by reading (delivery on the still-open direction of a half-closed stream included: configuration with one write buffer and a carrier holding one chunk per direction, so that window increments and close-write wait in the accumulator); non-trivial = at least one byte was read end to end; distinct by final state key (which includes the order of reads / half-closes made while the side had no write buffer). In addition 12 fixed large-transfer histories: receive window in {65535, 65536, 262144} x one Write of {65535, 65536, 100000, 200000} bytes whose values are a function of the full offset, then an 18-byte trailer and CloseWrite, reader reading with a 70000-byte buffer to end-of-stream, everything delivered after each call; same byte-stream model",
+		"breadth-first exploration with state deduplication of ALL harness event sequences up to the configured depth over two real multiplexers on a harness-owned carrier inside a synctest bubble; events: open, accept, write(n) n in {0,1,W+1}, read(k) k in {0,1,W+1}, closeWrite, close (both sides), deliver next chunk A>B / B>A (thorough also: next byte, window 3, two streams); one case = one executed history; judged on every Read/Write result and at every quiescent state: byte k read on a stream = byte k the peer wrote on it (values encode stream, direction, offset), nothing read beyond what Write calls reported, io.EOF only after the peer's CloseWrite/Close and with all reported bytes read, reported bytes with nothing in flight are readable, and with nothing in flight no Write stays blocked whose data fits the window the peer has freed by reading (delivery on the still-open direction of a half-closed stream included: configuration with one write buffer and a carrier holding one chunk per direction, so that window increments and close-write wait in the accumulator); non-trivial = at least one byte was read end to end; distinct by final state key (which includes the order of reads / half-closes made while the side had no write buffer). In addition 12 fixed large-transfer histories: receive window in {65535, 65536, 262144} x one Write of {65535, 65536, 100000, 200000} bytes whose values are a function of the full offset, then an 18-byte trailer and CloseWrite, reader reading with a 70000-byte buffer to end-of-stream, everything delivered after each call; and 39 carrier-segmentation histories: payload lengths 1,300,2 on one stream and 1,300,2,1 alternating over two streams (window 1024, a Read always outstanding at the receiver, final half-close and read to end-of-stream), with the carrier read boundary placed at every offset 1..5 of each data message in turn (kind | stream id | 2 length bytes | first payload byte), plus the whole history delivered 1 byte at a time and 3 bytes at a time; same byte-stream model",
 		[]string{commonAssume1, commonAssume2, commonAssume3,
 			"branches in which a multiplexer records an internal error are not continued here (that is C24's subject); they are counted in branches_stopped_at_internal_error"})
 }
@@ -354,7 +354,7 @@ func c24Scenarios() []scenario {
 
 func TestC24(t *testing.T) {
 	runProperty(t, "C24", c24Configs(), nil, append(c24Scenarios(), segmentationScenarios()...),
-		"breadth-first exploration with state deduplication of ALL harness event sequences up to the configured depth over two real multiplexers on a harness-owned carrier inside a synctest bubble; events: open, accept, cancel of a pending open/accept, write(n) and read(k) with n,k in {0,1,W+1} (also after close / end-of-stream), closeWrite, close, SetReadDeadline/SetWriteDeadline(clear | 1 s in the past | 1 s in the future), sleep 2 s (virtual), open beyond an accept backlog of 1, deliver next chunk A>B / B>A; oracle at every quiescent state: InternalError()==nil and Closed() not closed on both sides (the harness never closes a multiplexer and never fails the carrier in these runs); non-trivial = the history contains a zero-length operation, a deadline, a cancellation, a rejection or a (half-)close; distinct by final state key. In addition two driver-policy scenarios with heartbeats ENABLED (transmit 1 s, receive limit 4 s, virtual time) on a carrier that holds one chunk per direction and is paced by the harness (50 ms of virtual time and one chunk A>B per round, 240 rounds = 12 s = 3x the limit): sustained back-to-back one-byte writes on two streams (both write buffers of the sender permanently busy) and an idle link (positive control); same oracle",
+		"breadth-first exploration with state deduplication of ALL harness event sequences up to the configured depth over two real multiplexers on a harness-owned carrier inside a synctest bubble; events: open, accept, cancel of a pending open/accept, write(n) and read(k) with n,k in {0,1,W+1} (also after close / end-of-stream), closeWrite, close, SetReadDeadline/SetWriteDeadline(clear | 1 s in the past | 1 s in the future), sleep 2 s (virtual), open beyond an accept backlog of 1, deliver next chunk A>B / B>A; oracle at every quiescent state: InternalError()==nil and Closed() not closed on both sides (the harness never closes a multiplexer and never fails the carrier in these runs); non-trivial = the history contains a zero-length operation, a deadline, a cancellation, a rejection or a (half-)close; distinct by final state key. In addition two driver-policy scenarios with heartbeats ENABLED (transmit 1 s, receive limit 4 s, virtual time) on a carrier that holds one chunk per direction and is paced by the harness (50 ms of virtual time and one chunk A>B per round, 240 rounds = 12 s = 3x the limit): sustained back-to-back one-byte writes on two streams (both write buffers of the sender permanently busy) and an idle link (positive control); and the 39 carrier-segmentation histories of C23 (read boundary at every offset of every data message header, 1-byte and 3-byte carriers); same oracle",
 		[]string{commonAssume1, commonAssume2, commonAssume3,
 			"the wire message trace is not decoded: the oracle is the receiver's own verdict (InternalError / Closed) as the property states",
 			"heartbeat scenario: on the unchanged code the writer's select chooses randomly between a due heartbeat and queued data; a false alarm needs 60 consecutive choices of data (probability 2^-60)"})
